@@ -75,8 +75,8 @@ package ast
 // column per character.
 //@ func (*Lit).End
 //@   loop "for _, r := range w.Value" invariant[C04] line > w.ValuePos.line || (line == w.ValuePos.line && col >= w.ValuePos.col)
-//@   loop "for _, r := range w.Value" invariant[C04] line == w.ValuePos.line ==> col == w.ValuePos.col + rune_count(w.Value[:rangepos()])
-//@   ensures[C04] one-column-per-character: result.line == w.ValuePos.line ==> result.col == w.ValuePos.col + rune_count(w.Value)
+//@   loop "for _, r := range w.Value" invariant[C04 C18] line == w.ValuePos.line ==> col == w.ValuePos.col + rune_count(w.Value[:rangepos()])
+//@   ensures[C04 C18] one-column-per-character: result.line == w.ValuePos.line ==> result.col == w.ValuePos.col + rune_count(w.Value)
 //@   ensures[C04] not-before-its-start: result.line > w.ValuePos.line || (result.line == w.ValuePos.line && result.col >= w.ValuePos.col)
 //@ func (*Lit).Pos
 //@   ensures[C04] result == w.ValuePos
